@@ -189,7 +189,7 @@ def types_of_size(n: int) -> List[Any]:
             choices = []
             for part in c:
                 ch = [["n", part]]
-                if part >= 2:
+                if part >= 2 and n <= 3:
                     ch += [t for t in types_of_size(part) if t[0] == "+" and len(t[1]) >= 2]
                 choices.append(ch)
             for combo in itertools.product(*choices):
@@ -197,6 +197,10 @@ def types_of_size(n: int) -> List[Any]:
     out.append(["+", [["n", n]]])
     if n == 0:
         out += [["*", [["n", 0], ["n", 2]]], ["*", [["n", 2], ["n", 0]]]]
+    if n == 4:
+        out += [["*", [["n", 2], ["n", 2]]], ["*", [["n", 2], ["+", [["n", 1], ["n", 1]]]]]]
+    if n == 6:
+        out += [["*", [["n", 2], ["n", 3]]], ["*", [["n", 3], ["n", 2]]], ["*", [["+", [["n", 1], ["n", 1]]], ["n", 3]]]]
     _TYPES_CACHE[n] = out
     return out
 
@@ -571,7 +575,15 @@ def unit_cases(unit, seed: int, tier: str):
     k = n_labels(inputs)
     if fn in ("mv", "mm"):
         k = 2 if fn == "mv" else 3
-    sz = size_assignments(k, rng, ndraws, zero=(uid % 3 == 0))
+    if fn == "einsum4":                                       # one label of size 4 or 6 (product / longer sum types)
+        fn = "einsum"
+        sz = []
+        for _ in range(ndraws):
+            sizes = [rng.choice((1, 2, 3, 4, 6)) for _ in range(k)]
+            sizes[rng.randrange(k)] = rng.choice((4, 6))
+            sz.append(sizes)
+    else:
+        sz = size_assignments(k, rng, ndraws, zero=(uid % 3 == 0))
     for i, sizes in enumerate(sz):
         yield gen_case(fn, sr, dtype, rg, inputs, output, sizes, rng, tier, lab=(uid + i) % 4 if fn in ("einsum", "viterbi") else 1)
 
@@ -715,6 +727,15 @@ def build_units(ctx: Ctx) -> Tuple[List[Any], Dict[str, Any]]:
             sr, dt, rg = rng.choice(combos(False))
             units.append(("einsum", sr, dt, rg, inputs, output, 1, uid)); uid += 1
         info["signatures_big sampled"] = 400
+    # --- product types: one label of size 4 or 6, signatures with <= 2 operands / <= 2 labels / rank <= 2
+    n4 = 0
+    for inputs in enum_inputs(2, 2, max_rank=2):
+        k = n_labels(inputs)
+        if k == 0: continue
+        for output in all_outputs(k):
+            for sr, dt, rg in combos(False):
+                units.append(("einsum4", sr, dt, rg, inputs, output, (6 if th else 2), uid)); uid += 1; n4 += 1
+    info["units with a label of size 4 or 6 (product types)"] = n4
     # --- the empty operand list
     for sr, dt, rg in combos(True):
         units.append(("einsum", sr, dt, rg, [], [], 1, uid)); uid += 1
@@ -737,6 +758,7 @@ def run_bounded(ctx: Ctx) -> Report:
     jobs = max(1, ctx.jobs)
     # fill gen_pt's pattern cache (in parallel) before forking the workers, so that they share it
     shapes = [tuple(s) for s in itertools.chain([()], *[itertools.product((0, 1, 2, 3), repeat=r) for r in (1, 2, 3)])]
+    shapes += [tuple(s) for r in (1, 2) for s in itertools.product((1, 2, 3, 4, 6), repeat=r) if 4 in s or 6 in s]
     todo = [(s, ctx.tier) for s in shapes if (s, ctx.tier) not in G._PFS_CACHE]
     if jobs > 1 and todo:
         with mp.get_context("fork").Pool(jobs) as pool:
